@@ -30,6 +30,17 @@ def same_leaf(a, b):
     return type(a) is type(b) and a == b
 
 
+def strip_private(v):
+    """the value as the default ignore_private_variables=True sees it: dictionary keys that start with a double underscore are not compared"""
+    if isinstance(v, dict):
+        return {k: strip_private(x) for k, x in v.items() if not (isinstance(k, str) and k.startswith('__'))}
+    if isinstance(v, list):
+        return [strip_private(x) for x in v]
+    if isinstance(v, tuple):
+        return tuple(strip_private(x) for x in v)
+    return v
+
+
 def nset_eq(a, b, rep):
     """equal as nested collections: lists/tuples as sets (rep False) or multisets (rep True)"""
     if type(a) is not type(b):
@@ -132,6 +143,33 @@ def gen_pairs(ctx, n):
         x, y = [d1, other], [other, d2]
         if FAM.in_universe(x, y):
             out.append((x, y))
+    # dictionaries inside order-ignored lists that differ only under double-underscore keys (not compared by default), or also elsewhere
+    for _ in range(max(8, n // 10)):
+        base = {'name': ctx.rng.choice(['a', 'b']), 'n': ctx.rng.randint(0, 3), '__typename': 'T', '__id': ctx.rng.randint(1, 5)}
+        other = dict(base, __id=base['__id'] + 1, __extra=[1, 2])
+        if ctx.rng.random() < 0.35:
+            other['n'] = base['n'] + 1
+        fill = [ctx.rng.choice([1, 'z', (1, 2), {'q': 1}]) for _ in range(ctx.rng.randint(0, 2))]
+        x, y = [base] + fill, list(reversed(fill)) + [other]
+        w = ctx.rng.choice([lambda v: v, lambda v: {'rows': v}, lambda v: [v, 0]])
+        out.append((w(x), w(y)))
+    # leaves of other hashable types (UUID, Decimal, date, complex are leaves of "nested values" too; outside the model universe: implementation only)
+    import uuid as _uuid, decimal as _dc, datetime as _dtm
+    odd = [_uuid.UUID(int=1), _uuid.UUID(int=2), _uuid.UUID(int=3), _dc.Decimal('1.5'), _dc.Decimal('2.5'), _dtm.date(2020, 1, 1), _dtm.date(2020, 1, 2), 5, 'a']
+    for _ in range(max(8, n // 10)):
+        xs = ctx.rng.sample(odd, ctx.rng.randint(2, 4))
+        ys = list(xs)
+        c = ctx.rng.random()
+        if c < 0.3:
+            ctx.rng.shuffle(ys)
+        elif c < 0.6:
+            ys[ctx.rng.randrange(len(ys))] = ctx.rng.choice(odd); ctx.rng.shuffle(ys)
+        elif c < 0.8:
+            ys = ys[1:]
+        else:
+            ys = ys + [ys[0]]
+        w = ctx.rng.choice([lambda v: v, lambda v: [{'id': e} for e in v], lambda v: {'k': v}, lambda v: (v, 1)])
+        out.append((w(xs), w(ys)))
     # the second value refers to objects of the first (no cycle: an old record kept inside the new one, a sub-container shared by identity)
     for _ in range(max(8, n // 10)):
         old_ = {'name': ctx.rng.choice(['cfg', 'x']), 'base': ctx.rng.choice([None, 1, [1]]), 'items': [ctx.rng.choice([1, 2]), [3]]}
@@ -202,7 +240,7 @@ def run(ctx, impl_only=False):
     for (t1, t2) in gen_pairs(ctx, n):
         s1, s2 = copy.deepcopy(t1), copy.deepcopy(t2)
         for rep in (False, True):
-            want = nset_eq(t1, t2, rep)
+            want = nset_eq(strip_private(t1), strip_private(t2), rep)
             if not strict_eq(t1, t2):
                 ctx.nontriv((repr(t1), repr(t2), rep))
             verdicts = {}
